@@ -505,6 +505,9 @@ struct Ctx<'a> {
     cw: &'a mut CaseWriter,
     st: &'a mut Stats,
     budget: usize,
+    /// oracle failures already reported per class key (the shared Stats keeps only the first 50 failures in total,
+    /// so many instances of one known finding must not crowd out a different failure)
+    reported: BTreeMap<String, u32>,
 }
 fn emit_case(cx: &mut Ctx, font: &[u8], st_before: &St, fail_at: Option<usize>, kind: u8, out: &CallOut, label: &str) -> String {
     let base = font_tables(font).unwrap();
@@ -571,6 +574,12 @@ fn fail(cx: &mut Ctx, what: &str, label: &str, term: &str, extra: serde_json::Va
     } else {
         format!("{}:{}", label, what)
     };
+    let n = cx.reported.entry(key.clone()).or_insert(0);
+    *n += 1;
+    if *n > 3 {
+        cx.st.count(&format!("oracle_failure_instances.{}", key));
+        return;
+    }
     cx.st.oracle_failure(json!({"key": key, "what": what, "label": label, "extra": extra,
         "instance": format!("{:016x}", fnv(term.as_bytes())), "case": &term[..term.len().min(1500)]}));
 }
@@ -922,7 +931,10 @@ fn compat(a: u32) -> [u8; 16] {
     }
     c
 }
-fn random_contents(rng: &mut Rng, n: usize, ng: usize, agree: bool, wide: bool, gvar: bool) -> Vec<GkContent> {
+/// `wide_mode`: 0 = every patch has 16-bit glyph ids, 1 = every patch 24-bit, 2 = MIXED inside the group (every per-patch
+/// header field — id width, table list, source mapping table, max length slack — varies independently of the other patches)
+fn random_contents(rng: &mut Rng, n: usize, ng: usize, agree: bool, wide_mode: u8, gvar: bool) -> Vec<GkContent> {
+    let flip = rng.chance(1, 2);
     let global: Vec<Vec<u8>> = (0..ng + 2).map(|g| {
         let l = rng.below(6) as usize;
         (0..l).map(|i| (0x10 * (g as u8 + 1)).wrapping_add(i as u8)).collect()
@@ -969,6 +981,7 @@ fn random_contents(rng: &mut Rng, n: usize, ng: usize, agree: bool, wide: bool, 
                         .collect()
                 })
                 .collect();
+            let wide = match wide_mode { 0 => false, 1 => true, _ => (p % 2 == 0) ^ flip };
             GkContent { tables, gids, data, wide }
         })
         .collect()
@@ -995,7 +1008,9 @@ fn gk_scenario(rng: &mut Rng, n1: usize, n2: usize, long: bool, ng: usize, gvar:
 }
 fn patch_for(e: &Entry, c: &GkContent) -> Vec<u8> {
     let s = gk_stream(c);
-    gk_patch(b"ifgk", &e.compat, c.wide, s.len() as u32, &s)
+    // the declared maximum is exact or leaves some slack, per patch
+    let slack = (c.gids.len() as u32 % 3) * 5;
+    gk_patch(b"ifgk", &e.compat, c.wide, s.len() as u32 + slack, &s)
 }
 
 /// Runs one group of glyph keyed patches in every permutation (content -> uri), with decoder faults,
@@ -1107,7 +1122,7 @@ fn run_gk_malformed(cx: &mut Ctx, rng: &mut Rng) {
     let n2x = if rng.chance(1, 3) { 1 } else { 0 };
     let mut sc = gk_scenario(rng, 2, n2x, long, ng, false);
     let n = sc.entries.len();
-    let widex = rng.chance(1, 4);
+    let widex = rng.below(4) as u8 % 3;
     let mut contents = random_contents(rng, n, ng, true, widex, false);
     for c in contents.iter_mut() {
         if c.gids.is_empty() {
@@ -1472,7 +1487,7 @@ fn cff_scenario(rng: &mut Rng, which: u8, n: usize, ng: usize, off_size: u8, big
     tables.insert(IFT, ift);
     (GkScenario { font: FontSpec { tables }, entries }, tags)
 }
-fn cff_contents(rng: &mut Rng, n: usize, ng: usize, tags: &[Tag], agree: bool, big: bool) -> Vec<GkContent> {
+fn cff_contents(rng: &mut Rng, n: usize, ng: usize, tags: &[Tag], agree: bool, big: bool, mixed_width: bool) -> Vec<GkContent> {
     let global: Vec<Vec<u8>> = (0..ng).map(|g| {
         let l = if big { rng.below(60) as usize } else { rng.below(6) as usize };
         (0..l).map(|i| (0x11 * (g as u8 + 1)).wrapping_add(i as u8)).collect()
@@ -1504,7 +1519,7 @@ fn cff_contents(rng: &mut Rng, n: usize, ng: usize, tags: &[Tag], agree: bool, b
                         .collect()
                 })
                 .collect();
-            GkContent { tables, gids, data, wide: false }
+            GkContent { tables, gids, data, wide: mixed_width && p % 2 == 1 }
         })
         .collect()
 }
@@ -1991,7 +2006,7 @@ fn main() {
     );
     let budget = if thorough { 40_000 } else { 5_200 };
     {
-        let mut cx = Ctx { cw: &mut cw, st: &mut st, budget };
+        let mut cx = Ctx { cw: &mut cw, st: &mut st, budget, reported: BTreeMap::new() };
         // glyph keyed families
         let fams = if thorough { 160 } else { 26 };
         for i in 0..fams {
@@ -2002,7 +2017,9 @@ fn main() {
             let with_gvar = i % 3 != 0;
             let sc = gk_scenario(&mut rng, n1, n2, long, ng, with_gvar);
             let agree = i % 3 != 2;
-            let contents = random_contents(&mut rng, n1 + n2, ng, agree, i % 7 == 3, with_gvar);
+            let wide_mode = if i % 3 == 1 { 2 } else if i % 7 == 3 { 1 } else { 0 };
+            cx.st.count(&format!("family.wide_mode{}", wide_mode));
+            let contents = random_contents(&mut rng, n1 + n2, ng, agree, wide_mode, with_gvar);
             if with_gvar { cx.st.count("family.gvar"); }
             cx.st.count(if agree { "family.agree" } else { "family.disagree" });
             cx.st.count(&format!("family.n{}", n1 + n2));
@@ -2022,7 +2039,7 @@ fn main() {
             let off_size = if big { 1 } else { 1 + rng.below(4) as u8 };
             let (sc, tags) = cff_scenario(&mut rng, which, n, ng, off_size, big);
             let agree = i % 4 != 3;
-            let contents = cff_contents(&mut rng, n, ng, &tags, agree, big);
+            let contents = cff_contents(&mut rng, n, ng, &tags, agree, big, i % 2 == 1);
             cx.st.count("family.cff");
             run_gk_family(&mut cx, &mut rng, &sc, &contents, agree, thorough);
         }
